@@ -25,6 +25,7 @@ import (
 	"os"
 	"os/exec"
 	"path/filepath"
+	"reflect"
 	"sort"
 	"strconv"
 	"strings"
@@ -1375,6 +1376,12 @@ func c12Record(env *Env) {
 				Out: []c12EvOut{}, Outrc: []c12EvOut{}, Fault: "sheet: " + problem + "\n" + text})
 			continue
 		}
+		type c12Seen struct {
+			b      c12Built
+			rc     string
+			od, or c12Obs
+		}
+		seen := make([]c12Seen, 0, per)
 		for k := 0; k < per; k++ {
 			b := c12RandScenario(r, sh)
 			rcb := make([]byte, len(b.read))
@@ -1389,6 +1396,35 @@ func c12Record(env *Env) {
 			}
 			env.emit(c12Event{K: "demux", Src: "T", Cls: b.cls, Fmt: format, Sheet: c12EvSheetOf(sh), Sc: b.sc, Read: c12Codes(b.read), Readrc: c12Codes(string(rcb)),
 				Out: c12EvOuts(od.Outs), None: c12B(od.None), Outrc: c12EvOuts(or.Outs), Nonerc: c12B(or.None), Fault: fault})
+			seen = append(seen, c12Seen{b, string(rcb), od, or})
 		}
+		// obimultiplex gives the same library (compiled primers, sample tables) to all its workers: the reads of
+		// this sheet are extracted again by 16 goroutines at once, several rounds; an answer that differs from
+		// the one logged above is logged as one more event and judged by the specification like any other.
+		rounds := env.optInt("rounds", 6)
+		var cmu sync.Mutex
+		extra := 0
+		parallel(16*rounds, 16, func(w int) {
+			for j := range seen {
+				k := (j + w*7) % len(seen)
+				sn := &seen[k]
+				od := c12Extract(lib, sh, fmt.Sprintf("t%d_%d", si, k), sn.b.read)
+				or := c12Extract(lib, sh, fmt.Sprintf("t%d_%dc", si, k), sn.rc)
+				if reflect.DeepEqual(od, sn.od) && reflect.DeepEqual(or, sn.or) {
+					continue
+				}
+				cmu.Lock()
+				if extra < 40 {
+					extra++
+					fault := od.Fault
+					if fault == "" {
+						fault = or.Fault
+					}
+					env.emit(c12Event{K: "demux", Src: "T", Cls: sn.b.cls + "/shared-library", Fmt: format, Sheet: c12EvSheetOf(sh), Sc: sn.b.sc, Read: c12Codes(sn.b.read),
+						Readrc: c12Codes(sn.rc), Out: c12EvOuts(od.Outs), None: c12B(od.None), Outrc: c12EvOuts(or.Outs), Nonerc: c12B(or.None), Fault: fault})
+				}
+				cmu.Unlock()
+			}
+		})
 	}
 }
